@@ -719,6 +719,9 @@ def _coerce_to_pattern_ast_Dict(
         key_cls = key.__class__
 
         if key_cls is Constant:  # these can just be used as-is
+            if key.value is ...:
+                return 'key cannot be Ellipsis'
+
             keys.append(key)
 
         elif key.__class__ not in (UnaryOp, BinOp, Attribute):
